@@ -2,6 +2,7 @@
 the property with its oracle, replay on the model, shrink failures."""
 import json
 import os
+import time as _time
 import random
 
 import gen
@@ -106,7 +107,7 @@ def run_steps(goit, steps_or_gen, nsteps, tz="UTC", tz_offset=0, base=None):
                 st = steps_or_gen[i]
             i += 1
             r = StepRec()
-            r.step, r.before, r.time, r.off = st, prev, 0, tz_offset
+            r.step, r.before, r.time, r.off = st, prev, int(_time.time()), tz_offset
             if st.kind == "edit":
                 try:
                     getattr(sb, st.op)(*([st.path] + ([st.data] if st.op == "write" else [])))
@@ -127,7 +128,8 @@ def run_steps(goit, steps_or_gen, nsteps, tz="UTC", tz_offset=0, base=None):
                             r.time = sg["time"]
                     except ValueError:
                         pass
-            if st.kind == "cmd" and st.name == "commit" and r.res.cls == "ok" and r.time == 0:
+            made = any((r.after.objects[k] or b"").startswith(b"commit ") for k in r.new_objs)
+            if st.kind == "cmd" and st.name == "commit" and r.res.cls == "ok" and not made:
                 # an identical commit made again within the same second creates no new object
                 try:
                     hb = r.after.head_branch
